@@ -73,6 +73,23 @@ CLAIMS["C08"] = ("proof", "6.C08",
     "rewritten forms, traces over every function kind of a generated package).",
     TRUST + "the round-trip lemma itself is bounded in this round (type_to_dict is not under an L1 contract); T-IMPORT / T-JSON assumed.")
 
+CLAIMS["C05"] = ("exploration", "6.C05",
+    "Bounded: lock-step tightness walk of the inferred (merged) type against the multiset of values it was inferred from (every union alternative, exact class, Any, "
+    "required / optional key witnessed), over generated value multisets x k. Proved extras (reported under coverage.obligations): get_type returns the exact runtime class "
+    "for non-containers and never the bare Any; the literal Any is produced only on the empty-input branch of shrink_types, the empty-dict branch of get_dict_type and the "
+    "generator branch of get_type (inventory obligations with path conditions); a top-level TypedDict from get_dict_type has exactly the dict's keys, all required.",
+    TRUST + "the witness oracle `tight` of runtime/props/c05.py (reads 'Any as an alternative' as the element type of an observed empty container); the closure lemma over merges is not proved.")
+CLAIMS["C06"] = ("proof", "6.C06",
+    "Proved: get_dict_type builds a TypedDict only for a non-empty dict with all-string keys and at most k keys (all required, none optional) and none at all for k <= 0; get_type "
+    "returns no TypedDict for k <= 0; the configured limit is threaded unchanged from Config through monkeytype.trace / trace_calls / CallTracer into every get_type call and "
+    "from cli.get_stub into stub generation. Bounded: td_ok over all nested nodes after merging any number of traces, through the JSON round trip and in rendered class stubs.",
+    TRUST + "the deep invariant td_ok(result, k) on merged / rewritten / decoded types is bounded (runtime/props/c06.py).")
+CLAIMS["C14"] = ("exploration", "6.C14",
+    "Bounded: one trace multiset written to real sqlite stores in several orders, with duplicates, split into batches over two connections; `stub` run in fresh interpreters with "
+    "different PYTHONHASHSEED, k in {0,3}, default and no rewriter: identical stub up to union-member order. Proved extras: make_query groups by all selected columns (distinct rows) "
+    "and SQLiteStore.filter returns exactly the query's rows; cli.get_stub builds the stub from the decoded rows in query order with the configured parameters.",
+    TRUST + "determinism of shrink_types / stub builders over sets is not proved in this round (bounded only).")
+
 NA = {
     "C01": "end-to-end composition: the stage contracts it composes are proved under C02/C04/C07/C10/C13; the composition lemma and the text half (C11) are not built yet",
     "C05": "tightness clauses (witness vocabulary) not built yet",
